@@ -1163,7 +1163,8 @@ func (r resolverQuery) esmPackageTargetResolve(
 
 		// If subpath split on "/" or "\" contains any ".", ".." or "node_modules"
 		// segments, throw an Invalid Module Specifier error.
-		if invalidSegment := findInvalidSegment(subpath); invalidSegment != "" {
+		// (unlike for the target above, this includes the first segment of subpath)
+		if invalidSegment := findInvalidSegment("./" + subpath); invalidSegment != "" {
 			if r.debugLogs != nil {
 				r.debugLogs.addNote(fmt.Sprintf("The path %q is invalid because it contains invalid segment %q", subpath, invalidSegment))
 			}
